@@ -121,7 +121,7 @@ def cases(ctx):
             ins.append({"op": "persist", "policy": None, "version": 0, "new_session": False, "reuse_old": False,
                         "a": [1], "b": ["u"], "c": [C_VALS[0]], "how": rng.choice(["drop_sel", "drop_sel", "expand", "save"])})
             steps[at:at] = ins
-        kind = rng.choice(["float", "multi:s,a3", "int", "intfloat", "intfloat"])
+        kind = rng.choice(["float", "multi:s,a3", "int", "intfloat", "intfloat", "nearfloat", "nearfloat"])
         if kind == "intfloat":
             # whole numbers first, fractional ones later (and dense little grids, so that no hole keeps the dtype wide)
             for k, st in enumerate(steps):
